@@ -272,6 +272,10 @@ def generate(unit_dir, mustfail=False, mutate=None, variant=None, template='unit
                     spec['entry'] = txt
                 elif k == 'tail':
                     spec['tail'] = txt
+                elif k == 'noreturn':
+                    spec['noreturn'] = True    # the function has no early exit (an obligation spliced at its end covers every path)
+                elif k == 'fnend':
+                    spec['fnend'] = txt        # before the closing brace of a function whose body ends with a statement
                 elif k == 'loop':
                     oo = parse_opts(hdr[2:])
                     spec['loops'][int(hdr[1])] = dict(inv=txt, iter=oo.get('iter'))
@@ -294,9 +298,10 @@ def generate(unit_dir, mustfail=False, mutate=None, variant=None, template='unit
                     # R11: an expression the verifier cannot take (char-pattern string methods) is replaced, textually and exactly,
                     # by a call of a contract-less stand-in: `//@@ rewrite <source text> => <replacement>`
                     joined = ' '.join(hdr[1:])
-                    if ' => ' not in joined:
+                    sep = ' ==>> ' if ' ==>> ' in joined else ' => '      # `==>>` when the source text itself contains `=>`
+                    if sep not in joined:
                         raise ExtractError('%s: rewrite needs `<from> => <to>`' % tpath)
-                    frm, to = joined.split(' => ', 1)
+                    frm, to = joined.split(sep, 1)
                     spec.setdefault('rewrites', []).append((frm, to))
                     spec['rules'].add('R11')
                 elif k == 'macro':
